@@ -553,3 +553,829 @@ Proof.
           rewrite ?orb_true_r, ?orb_false_r; auto;
           try (destruct (mem x (fdirty f0)), (mem x l), (mem x (snew s)); reflexivity).
 Qed.
+
+Lemma ks_find_app : forall x l1 l2, ks_find x (l1 ++ l2) = match ks_find x l1 with Some p => Some p | None => ks_find x l2 end.
+Proof.
+  intros x l1 l2. induction l1 as [|[o p] l1 IH]; cbn; auto. destruct (Nat.eqb o x); auto.
+Qed.
+Lemma ks_find_rem : forall x o l, ks_find x (ks_rem o l) = if Nat.eqb x o then None else ks_find x l.
+Proof.
+  intros x o l. unfold ks_rem. induction l as [|[a p] l IH]; cbn.
+  - destruct (Nat.eqb x o); reflexivity.
+  - destruct (Nat.eqb_spec a o); cbn.
+    + subst. rewrite IH. destruct (Nat.eqb_spec x o).
+      * reflexivity.
+      * destruct (Nat.eqb_spec o x); [congruence|reflexivity].
+    + rewrite IH. destruct (Nat.eqb_spec a x).
+      * subst. destruct (Nat.eqb_spec x o); [congruence|reflexivity].
+      * reflexivity.
+Qed.
+Lemma ks_find_set : forall x o p l, ks_find x (ks_set o p l) = if Nat.eqb x o then Some p else ks_find x l.
+Proof.
+  intros x o p l. unfold ks_set. rewrite ks_find_app, ks_find_rem. cbn.
+  destruct (Nat.eqb_spec x o).
+  - subst. rewrite Nat.eqb_refl. reflexivity.
+  - destruct (ks_find x l); auto. destruct (Nat.eqb_spec o x); [congruence|reflexivity].
+Qed.
+
+Lemma ks_rem_keys : forall o l x, In x (map fst (ks_rem o l)) -> In x (map fst l) /\ x <> o.
+Proof.
+  intros o l x. unfold ks_rem. induction l as [|[a p] l IH]; cbn; [tauto|].
+  destruct (Nat.eqb_spec a o); cbn.
+  - intros H. destruct (IH H). split; auto.
+  - intros [H|H]; [subst; split; auto|]. destruct (IH H). split; auto.
+Qed.
+Lemma ks_rem_nodup : forall o l, NoDup (map fst l) -> NoDup (map fst (ks_rem o l)).
+Proof.
+  intros o l. unfold ks_rem. induction l as [|[a p] l IH]; cbn; intros H; [constructor|].
+  inversion H; subst. destruct (Nat.eqb_spec a o); cbn; auto.
+  constructor; auto. intros X. apply (ks_rem_keys o l a) in X. tauto.
+Qed.
+Lemma ks_set_nodup : forall o p l, NoDup (map fst l) -> NoDup (map fst (ks_set o p l)).
+Proof.
+  intros o p l H. unfold ks_set. rewrite map_app. cbn.
+  assert (A := ks_rem_nodup o l H).
+  assert (B : ~ In o (map fst (ks_rem o l))). { intros X. apply ks_rem_keys in X. tauto. }
+  revert A B. generalize (map fst (ks_rem o l)). intros l0. induction l0 as [|a l0 IH]; cbn; intros A B.
+  - constructor; auto.
+  - inversion A; subst. constructor.
+    + intros X. apply in_app_or in X. destruct X as [X|[X|[]]]; [contradiction|subst; apply B; left; auto].
+    + apply IH; auto.
+Qed.
+Lemma ks_after_nodup : forall key0 ikof l fk, NoDup (map fst fk) -> NoDup (map fst (ks_after key0 ikof l fk)).
+Proof.
+  intros key0 ikof. unfold ks_after. induction l as [|o l IH]; intros fk H; cbn; auto.
+  apply IH. destruct (key0 o); auto. destruct (Z.eqb _ _); auto. apply ks_set_nodup; auto.
+Qed.
+
+Lemma ks_after_find : forall key0 ikof l fk x, NoDup l ->
+  ks_find x (ks_after key0 ikof l fk) =
+  if mem x l then
+    match key0 x with
+    | Some k => if Z.eqb k (ikof x) then ks_find x fk
+                else Some (match ks_find x fk with Some (old, _) => old | None => k end, ikof x)
+    | None => ks_find x fk
+    end
+  else ks_find x fk.
+Proof.
+  intros key0 ikof. induction l as [|o l IH]; intros fk x Hnd; cbn [ks_after fold_left mem existsb]; auto.
+  inversion Hnd; subst. fold (mem x l). unfold ks_after in IH. rewrite IH by auto.
+  destruct (Nat.eqb_spec x o).
+  - subst. cbn [orb]. destruct (mem o l) eqn:E; [apply mem_In in E; contradiction|].
+    destruct (key0 o) as [k|]; auto. destruct (Z.eqb k (ikof o)); auto.
+    rewrite ks_find_set, Nat.eqb_refl. reflexivity.
+  - cbn [orb]. destruct (mem x l); auto.
+    + assert (E : ks_find x (match key0 o with
+                  | Some k => if Z.eqb k (ikof o) then fk
+                              else ks_set o (match ks_find o fk with Some (old, _) => old | None => k end, ikof o) fk
+                  | None => fk end) = ks_find x fk).
+      { destruct (key0 o) as [k|]; auto. destruct (Z.eqb k (ikof o)); auto.
+        rewrite ks_find_set. destruct (Nat.eqb_spec x o); [contradiction|reflexivity]. }
+      rewrite E. reflexivity.
+    + destruct (key0 o) as [k|]; auto. destruct (Z.eqb k (ikof o)); auto.
+      rewrite ks_find_set. destruct (Nat.eqb_spec x o); [contradiction|reflexivity].
+Qed.
+
+(* a successful registration means every object had a primary key value *)
+Lemma register_fold_dids : forall l s s', foldM register_one l s = (Ok, s') ->
+  forall o, In o l -> odid (objs s o) <> None.
+Proof.
+  induction l as [|a l IH]; intros s s' H o Ho; [contradiction|].
+  cbn [foldM] in H. apply bind_inv in H. destruct H as [[s1 [H1 H2]]|[_ X]]; [|congruence].
+  assert (Ha : odid (objs s a) <> None).
+  { intros X. unfold register_one in H1. rewrite X in H1. discriminate. }
+  destruct Ho as [Ho|Ho]; [subst; exact Ha|].
+  destruct (odid (objs s a)) as [ik|] eqn:Ed; [|congruence].
+  destruct (register_sim a s s ik [(a, (ik, ik))] (fun x => eq_refl) eq_refl Ed) as [s1' [E1 [O1 _]]].
+  { cbn. rewrite Nat.eqb_refl. reflexivity. }
+  assert (s1' = s1) by congruence. subst s1'.
+  specialize (IH s1 s' H2 o Ho). rewrite O1 in IH.
+  destruct (restore_ks_one_keeps [] [(a, (ik, ik))] a s o) as [K _]. congruence.
+Qed.
+
+(* ------------------------------------------------------------------ finalize: what it computes *)
+Section FinalCompute.
+  Variables (s1 : sess) (f : frame) (rest : list frame) (new dirty deleted : list nat).
+  Hypothesis Hst : stack s1 = f :: rest.
+  Hypothesis Hsn : snew s1 = new.
+  Hypothesis Hsd : sdel s1 = deleted.
+  Hypothesis Hnd_del : NoDup deleted.
+  Let n := nobj s1.
+  Let other := filter (fun o => mem o new || mem o dirty) (seq 0 n).
+  Definition ikof (x : nat) : Z := match odid (objs s1 x) with Some k => k | None => 0%Z end.
+  Hypothesis Hdisj : forall x, mem x deleted = true -> mem x other = false.
+  Hypothesis Hnew_lt : forall x, In x new -> x < n.
+
+  Definition FZ (x : nat) : obj :=
+    if mem x deleted then o_delf (o_in (objs s1 x) false) true
+    else if mem x other then commit_obj (o_in (o_key (objs s1 x) (Some (ikof x))) true)
+    else objs s1 x.
+
+  (* the state after the deletions were recorded *)
+  Let s2 := fold_left (fun s o => remove_newly_deleted o s) deleted s1.
+  Let ksR := map (fun o => (o, (ikof o, ikof o))) other.
+
+  Definition P2R (x : nat) : obj :=
+    if mem x other then o_in (o_key (objs s2 x) (Some (ikof x))) true else objs s2 x.
+
+  Hypothesis Hinj : forall x y, x < n -> y < n -> oin (P2R x) = true -> oin (P2R y) = true ->
+    okey (P2R x) = okey (P2R y) -> okey (P2R x) <> None -> x = y.
+
+  Lemma finalize_compute : forall r sZ, finalize new dirty deleted s1 = (r, sZ) -> r <> Unmodelled ->
+    r = Ok /\
+    (forall x, objs sZ x = FZ x) /\
+    (exists fn fd, stack sZ = f_dirty (f_new (f_ks (f_del f (fold_left (fun d o => addm o d) deleted (fdel f)))
+                       (ks_after (fun o => okey (objs s1 o)) ikof other (fks f))) fn) fd :: rest /\
+       (forall x, mem x fn = mem x (fnew f) || (mem x other && mem x new)) /\
+       (forall x, mem x fd = mem x (fdirty f) || (mem x other && negb (mem x new)))) /\
+    snew sZ = [] /\ sdel sZ = [] /\ nobj sZ = n /\ work sZ = work s1 /\ committed sZ = committed s1 /\
+    saves sZ = saves s1 /\ nfid sZ = nfid s1 /\ eoc sZ = eoc s1 /\ handles sZ = handles s1.
+  Proof.
+    intros r sZ H Hr. unfold finalize in H.
+    rewrite (bind_ok _ _ _ s2) in H by reflexivity.
+    destruct (rnd_fold deleted s1 f rest Hst Hnd_del) as [O2 [S2 [D2 [N2 [A1 [A2 [A3 [A4 [A5 [A6 A7]]]]]]]]]].
+    fold s2 in O2, S2, D2, N2, A1, A2, A3, A4, A5, A6, A7.
+    rewrite withst_eq in H. unfold all_objs in H. rewrite A1 in H. fold n in H. fold other in H.
+    destruct (negb (nodupZ (map (fun o => odid (objs s2 o)) other))); [inversion H; subst; congruence|].
+    apply bind_inv in H. destruct H as [[s3 [H3 H]]|[H3 Hn]].
+    2:{ (* registration cannot fail with an error *)
+        exfalso. clear - H3 Hn Hr.
+        revert H3. generalize s2. generalize other. intros l. induction l as [|a l IH]; intros s H3.
+        - inversion H3; subst; congruence.
+        - cbn [foldM] in H3. apply bind_inv in H3. destruct H3 as [[sa [Ha Hb]]|[Ha _]].
+          + eapply IH; eauto.
+          + unfold register_one in Ha. destruct (odid (objs s a)); [|inversion Ha; subst; congruence].
+            destruct (okey (objs s a)); [destruct (Z.eqb _ _)|]; inversion Ha; subst; congruence. }
+    (* every registered object has a key value *)
+    assert (Hdid : forall o, In o other -> odid (objs s2 o) = Some (ikof o) /\ ks_find o ksR = Some (ikof o, ikof o)).
+    { intros o Ho. pose proof (register_fold_dids _ _ _ H3 o Ho) as X.
+      assert (E : objs s2 o = objs s1 o).
+      { rewrite O2. destruct (mem o deleted) eqn:Ed; auto. apply Hdisj in Ed. apply mem_In in Ho. congruence. }
+      split.
+      - rewrite E in *. unfold ikof. destruct (odid (objs s1 o)); congruence.
+      - unfold ksR. rewrite (ks_find_map (fun o => (ikof o, ikof o))). apply mem_In in Ho. rewrite Ho. reflexivity. }
+    assert (Hnd_o : NoDup other) by (unfold other; apply NoDup_filter; apply seq_NoDup).
+    destruct (register_fold ksR ikof other s2 s2 _ rest (fun x => eq_refl) eq_refl S2 Hnd_o Hdid)
+      as [s3' [E3 [O3 [N3 [B1 [B2 [B3 [B4 [B5 [B6 [B7 [B8 B9]]]]]]]]]]]].
+    assert (s3' = s3) by congruence. subst s3'.
+    (* the re-keying loop over all objects *)
+    assert (O3' : forall x, objs s3 x = P2R x).
+    { intros x. rewrite O3.
+      change (fold_left (fun s o => restore_ks_one [] ksR o s) other s2) with
+             (fold_left (fun s o => restore_ks_one [] ksR o s) (filter (fun o => mem o new || mem o dirty) (seq 0 n)) s2).
+      rewrite <- (fold_ks_filter [] ksR (fun o => mem o new || mem o dirty) (seq 0 n) s2).
+      2:{ intros y _ Hy. unfold ksR. rewrite (ks_find_map (fun o => (ikof o, ikof o))).
+          destruct (mem y other) eqn:Em; auto. apply mem_In in Em. unfold other in Em. apply filter_In in Em. destruct Em. congruence. }
+      assert (Hinj' : forall x y, x < nobj s2 -> y < nobj s2 -> oin (P2 [] ksR s2 x) = true -> oin (P2 [] ksR s2 y) = true ->
+                okey (P2 [] ksR s2 x) = okey (P2 [] ksR s2 y) -> okey (P2 [] ksR s2 x) <> None -> x = y).
+      { assert (PE : forall z, P2 [] ksR s2 z = P2R z).
+        { intros z. unfold P2, P2R, ksR. rewrite (ks_find_map (fun o => (ikof o, ikof o))). destruct (mem z other); reflexivity. }
+        intros a b. rewrite !PE. rewrite A1. apply Hinj. }
+      destruct (phase2_char [] ksR s2 Hinj') as [_ PC]. unfold all_objs in PC. rewrite A1 in PC. fold n in PC.
+      rewrite PC.
+      - unfold P2, P2R, ksR. rewrite (ks_find_map (fun o => (ikof o, ikof o))). destruct (mem x other); reflexivity.
+      - destruct (Nat.lt_ge_cases x n); auto. right. unfold ksR. rewrite (ks_find_map (fun o => (ikof o, ikof o))).
+        destruct (mem x other) eqn:Em; auto. apply mem_In in Em. unfold other in Em. apply filter_In in Em.
+        destruct Em as [Em _]. apply in_seq in Em. lia. }
+    (* commit *)
+    apply bind_inv in H. destruct H as [[s4 [H4 H]]|[H4 Hn]]; [|inversion H4; subst; congruence].
+    inversion H4; subst s4. clear H4.
+    inversion H; subst sZ r. clear H.
+    set (f3 := f_ks (f_del f (fold_left (fun d o => addm o d) deleted (fdel f)))
+                   (ks_after (fun o => okey (objs s2 o)) ikof other (fks (f_del f (fold_left (fun d o => addm o d) deleted (fdel f)))))) in *.
+    destruct (commit_fold_rest other s3 f3 rest B9) as [fn [fd [C0 [C1 [C2 [C3 [C4 [C5 [C6 [C7 [C8 [C9 [C10 C11]]]]]]]]]]]]].
+    split; [reflexivity|]. split; [|split].
+    - intros x. cbn [objs set_snew].
+      rewrite (fold_objs_pointwise commit_one (fun _ => commit_obj)); auto.
+      + rewrite O3'. unfold P2R, FZ. rewrite O2.
+        destruct (mem x deleted) eqn:Ed.
+        * rewrite (Hdisj x Ed). reflexivity.
+        * destruct (mem x other); reflexivity.
+      + intros o s x0 Hx. rewrite commit_one_objs. destruct (Nat.eqb_spec x0 o); [contradiction|reflexivity].
+      + intros o s. rewrite commit_one_objs. rewrite Nat.eqb_refl. reflexivity.
+    - exists fn, fd. cbn [stack set_snew]. rewrite C0. split.
+      + unfold f3. cbn.
+        assert (KE : ks_after (fun o => okey (objs s2 o)) ikof other (fks f) = ks_after (fun o => okey (objs s1 o)) ikof other (fks f)).
+        { unfold ks_after. clear - O2 Hdisj. revert Hdisj. generalize (fks f).
+          assert (X : forall l, (forall y, In y l -> mem y deleted = false) -> forall fk,
+                    fold_left (fun fk o => match okey (objs s2 o) with
+                       | Some k => if Z.eqb k (ikof o) then fk else ks_set o (match ks_find o fk with Some (old, _) => old | None => k end, ikof o) fk
+                       | None => fk end) l fk =
+                    fold_left (fun fk o => match okey (objs s1 o) with
+                       | Some k => if Z.eqb k (ikof o) then fk else ks_set o (match ks_find o fk with Some (old, _) => old | None => k end, ikof o) fk
+                       | None => fk end) l fk).
+          { induction l as [|a l IH]; intros Hl fk; cbn; auto.
+            rewrite O2. rewrite (Hl a) by (left; auto). apply IH. intros; apply Hl; right; auto. }
+          intros fk Hd. apply X. intros y Hy. destruct (mem y deleted) eqn:E; auto. apply Hd in E. apply mem_In in Hy. congruence. }
+        rewrite KE. reflexivity.
+      + split.
+        * intros x. rewrite C1. unfold f3. cbn. rewrite B1, N2, Hsn. reflexivity.
+        * intros x. rewrite C2. unfold f3. cbn. rewrite B1, N2, Hsn. reflexivity.
+    - cbn [snew sdel nobj work committed saves nfid eoc handles set_snew].
+      rewrite C3, C4, C5, C6, C7, C8, C9, C10, C11, B1, B2, N3, B3, B4, B5, B6, B7, B8, N2, D2, A1, A2, A3, A4, A5, A6, A7, Hsn, Hsd.
+      repeat split; auto.
+      + (* nothing stays pending *)
+        assert (X : forall l, (forall y, In y l -> mem y other = true) -> filter (fun o => negb (mem o other)) l = []).
+        { induction l as [|a l IH]; intros Hl; cbn; auto. rewrite (Hl a) by (left; auto). cbn. apply IH. intros; apply Hl; right; auto. }
+        apply X. intros y Hy. apply mem_In. unfold other. apply filter_In. split.
+        * apply in_seq. cbn. specialize (Hnew_lt y Hy). lia.
+        * apply mem_In in Hy. rewrite Hy. reflexivity.
+      + assert (X : forall l, (forall y, In y l -> mem y deleted = true) -> filter (fun x => negb (mem x deleted)) l = []).
+        { induction l as [|a l IH]; intros Hl; cbn; auto. rewrite (Hl a) by (left; auto). cbn. apply IH. intros; apply Hl; right; auto. }
+        apply X. intros y Hy. apply mem_In. exact Hy.
+  Qed.
+End FinalCompute.
+
+Lemma mem_filter_seq' : forall (P : nat -> bool) n x, mem x (filter P (seq 0 n)) = Nat.ltb x n && P x.
+Proof.
+  intros P n x. destruct (mem x (filter P (seq 0 n))) eqn:E.
+  - apply mem_In in E. apply filter_In in E. destruct E as [E1 E2]. apply in_seq in E1.
+    rewrite E2. destruct (Nat.ltb_spec x n); [reflexivity|lia].
+  - destruct (Nat.ltb_spec x n); cbn; auto. destruct (P x) eqn:EP; auto.
+    assert (In x (filter P (seq 0 n))). { apply filter_In. split; auto. apply in_seq. lia. }
+    apply mem_In in H0. congruence.
+Qed.
+
+(* ------------------------------------------------------------------ finalize: what it means *)
+Section FlushSem.
+  Variables (s0 : sess) (g : ghost) (f : frame) (s1 : sess) (rho : nat -> option Z) (rv : nat -> Z) (dirty : list nat).
+  Hypothesis GC : GClean g.
+  Let n := nobj s0.
+  Let W0 := work s0.
+  Let new := snew s0.
+  Let deleted := sdel s0.
+  Hypothesis Hdirty : forall x, In x dirty <-> (x < n /\ oin (objs s0 x) = true /\ omod (objs s0 x) = true /\ ~ In x deleted).
+  Hypothesis S : Sig s0 g f [] s1 rho rv.
+  Hypothesis HU1 : forall x, ~ In x dirty -> ~ In x new -> ~ In x deleted ->
+    rho x = (if oin (objs s1 x) then okey (objs s1 x) else None) /\
+    (forall k v, okey (objs s1 x) = Some k -> W0 k = Some v -> rv x = v).
+  Hypothesis HU2 : forall x, In x dirty \/ In x new -> rho x <> None.
+  Hypothesis HU3 : forall x, In x deleted -> rho x = None /\ odid (objs s1 x) <> None /\ odv (objs s1 x) <> None.
+
+  Let L := sg_l _ _ _ _ _ _ _ S.
+  Let G1 : Good (objs s1) n W0 new deleted := sl_good _ _ _ _ L.
+  Let J1 : J (objs s1) n := sl_j _ _ _ _ L.
+  Let R1 : Rel g f (objs s1) n new deleted W0 := sl_rel _ _ _ _ L.
+  Let GG : Good (gobjs g) (gn g) (gW g) [] [] := proj1 GC.
+  Let W1 := work s1.
+
+  Lemma fs_n : nobj s1 = n /\ snew s1 = new /\ sdel s1 = deleted.
+  Proof. destruct (sl_rest _ _ _ _ L) as [_ [A [B [C _]]]]. auto. Qed.
+
+  Let other := filter (fun o => mem o new || mem o dirty) (seq 0 n).
+
+  Lemma other_spec : forall x, mem x other = true <-> (In x new \/ In x dirty).
+  Proof.
+    intros x. unfold other. rewrite mem_filter_seq'. split.
+    - intros H. apply andb_prop in H. destruct H as [_ H]. apply orb_prop in H.
+      destruct H as [H|H]; apply mem_In in H; auto.
+    - intros H. assert (x < n).
+      { destruct H as [H|H]; [apply (g_new _ _ _ _ _ G1) in H; tauto|apply Hdirty in H; tauto]. }
+      destruct (Nat.ltb_spec x n); [|lia]. cbn. destruct H as [H|H]; apply mem_In in H; rewrite H; auto. apply orb_true_r.
+  Qed.
+
+  Lemma del_not_other : forall x, mem x deleted = true -> mem x other = false.
+  Proof.
+    intros x H. destruct (mem x other) eqn:E; auto. exfalso. apply other_spec in E. apply mem_In in H.
+    pose proof (g_del _ _ _ _ _ G1 x H) as Hin.
+    destruct E as [E|E].
+    - apply (g_new _ _ _ _ _ G1) in E. destruct E as [_ [E _]].
+      destruct (g_in _ _ _ _ _ G1 x Hin) as [_ [_ [_ X]]]. congruence.
+    - apply Hdirty in E. tauto.
+  Qed.
+
+  (* the objects that are in the identity map after the flush, and where their row is *)
+  Definition foin (x : nat) : Prop :=
+    mem x other = true \/ (mem x other = false /\ mem x deleted = false /\ oin (objs s1 x) = true).
+
+  Lemma foin_rho : forall x, foin x -> exists p, rho x = Some p /\ W1 p = Some (rv x) /\ x < n /\
+    (mem x other = true ->
+       (odid (objs s1 x) = None \/ odid (objs s1 x) = Some p) /\ (odv (objs s1 x) = None \/ odv (objs s1 x) = Some (rv x))) /\
+    (mem x other = false -> okey (objs s1 x) = Some p /\ W0 p = Some (rv x)).
+  Proof.
+    intros x [H|[H1 [H2 H3]]].
+    - apply other_spec in H as H'. destruct (rho x) as [p|] eqn:Er.
+      2:{ exfalso. apply (HU2 x); [tauto|exact Er]. }
+      exists p. split; auto. split; [apply (sg_row _ _ _ _ _ _ _ S x p Er)|].
+      split; [destruct (sg_dom _ _ _ _ _ _ _ S x) as [X _]; [congruence|exact X]|].
+      split; [|congruence]. intros _.
+      destruct (sg_vals _ _ _ _ _ _ _ S x p Er) as [[]|[[]|X]]. exact X.
+    - assert (Hnd : ~ In x dirty /\ ~ In x new /\ ~ In x deleted).
+      { repeat split; intros X.
+        - assert (mem x other = true) by (apply other_spec; auto). congruence.
+        - assert (mem x other = true) by (apply other_spec; auto). congruence.
+        - apply mem_In in X. congruence. }
+      destruct Hnd as [N1 [N2 N3]]. destruct (HU1 x N1 N2 N3) as [A B]. rewrite H3 in A.
+      destruct (g_in _ _ _ _ _ G1 x H3) as [Hn [_ [_ Hk]]].
+      destruct (okey (objs s1 x)) as [k|] eqn:Ek; [|congruence].
+      destruct (g_rows _ _ _ _ _ G1 x k H3 Ek) as [v [Hv _]].
+      exists k. split; auto. rewrite (B k v eq_refl Hv).
+      split; [rewrite <- (B k v eq_refl Hv); apply (sg_row _ _ _ _ _ _ _ S x k A)|].
+      split; auto. split; [congruence|auto].
+  Qed.
+
+  Hypothesis Hdid : forall o, mem o other = true -> odid (objs s1 o) <> None.
+
+  Lemma P2R_spec : forall x,
+    P2R s1 new dirty deleted x =
+      if mem x other then o_in (o_key (objs s1 x) (Some (ikof s1 x))) true
+      else if mem x deleted then o_delf (o_in (objs s1 x) false) true else objs s1 x.
+  Proof.
+    intros x. unfold P2R. destruct fs_n as [N1 [N2 N3]]. rewrite N1. fold other.
+    assert (Hnd : NoDup deleted) by apply (g_nodup _ _ _ _ _ G1).
+    assert (X : forall y, objs (fold_left (fun s o => remove_newly_deleted o s) deleted s1) y =
+                if mem y deleted then o_delf (o_in (objs s1 y) false) true else objs s1 y).
+    { intros y. rewrite (fold_objs_pointwise remove_newly_deleted (fun _ ob => o_delf (o_in ob false) true)); auto.
+      - intros o s' z Hz. rewrite rnd_objs. destruct (Nat.eqb_spec z o); [contradiction|reflexivity].
+      - intros o s'. rewrite rnd_objs, Nat.eqb_refl. reflexivity. }
+    rewrite !X. destruct (mem x other) eqn:Eo.
+    - destruct (mem x deleted) eqn:Ed; [rewrite (del_not_other x Ed) in Eo; discriminate|reflexivity].
+    - reflexivity.
+  Qed.
+
+  Lemma P2R_inj : forall x y, x < nobj s1 -> y < nobj s1 ->
+    oin (P2R s1 new dirty deleted x) = true -> oin (P2R s1 new dirty deleted y) = true ->
+    okey (P2R s1 new dirty deleted x) = okey (P2R s1 new dirty deleted y) ->
+    okey (P2R s1 new dirty deleted x) <> None -> x = y.
+  Proof.
+    assert (K : forall z, oin (P2R s1 new dirty deleted z) = true ->
+              foin z /\ okey (P2R s1 new dirty deleted z) = rho z).
+    { intros z Hz. rewrite P2R_spec in *. destruct (mem z other) eqn:Eo.
+      - assert (Fz : foin z) by (left; auto). split; auto.
+        destruct (foin_rho z Fz) as [p [A [_ [_ [B _]]]]]. destruct (B Eo) as [[B1|B1] _].
+        + exfalso. apply (Hdid z Eo). exact B1.
+        + cbn. unfold ikof. rewrite B1. congruence.
+      - destruct (mem z deleted) eqn:Ed; [cbn in Hz; discriminate|].
+        assert (Fz : foin z) by (right; auto). split; auto.
+        destruct (foin_rho z Fz) as [p [A [_ [_ [_ B]]]]]. destruct (B Eo) as [B1 _]. congruence. }
+    intros x y _ _ Hx Hy Hk Hnk. destruct (K x Hx) as [Fx Kx]. destruct (K y Hy) as [Fy Ky].
+    rewrite Kx in Hk, Hnk. rewrite Ky in Hk.
+    destruct (rho x) as [p|] eqn:E; [|congruence].
+    eapply (sg_inj _ _ _ _ _ _ _ S); eauto.
+  Qed.
+
+  Notation FZ' := (FZ s1 new dirty deleted).
+
+  Lemma FZ_unfold : forall x, FZ' x =
+    if mem x deleted then o_delf (o_in (objs s1 x) false) true
+    else if mem x other then commit_obj (o_in (o_key (objs s1 x) (Some (ikof s1 x))) true)
+    else objs s1 x.
+  Proof. intros x. unfold FZ. destruct fs_n as [N1 _]. rewrite N1. reflexivity. Qed.
+
+  (* objects written by the flush were attached and not deleted *)
+  Lemma other_att : forall x, mem x other = true ->
+    x < n /\ oatt (objs s1 x) = true /\ odelf (objs s1 x) = false /\
+    ((In x new /\ okey (objs s1 x) = None /\ oin (objs s1 x) = false) \/
+     (In x dirty /\ ~ In x new /\ oin (objs s1 x) = true)).
+  Proof.
+    intros x H. apply other_spec in H.
+    assert (Hn' : In x new -> x < n /\ oatt (objs s1 x) = true /\ odelf (objs s1 x) = false /\ okey (objs s1 x) = None /\ oin (objs s1 x) = false).
+    { intros X. pose proof (g_newd _ _ _ _ _ G1 x X) as D. apply (g_new _ _ _ _ _ G1) in X. destruct X as [A [B C]].
+      repeat split; auto. destruct (oin (objs s1 x)) eqn:E; auto.
+      destruct (g_in _ _ _ _ _ G1 x E) as [_ [_ [_ Y]]]. congruence. }
+    destruct (in_dec Nat.eq_dec x new) as [Hi|Hi].
+    - destruct (Hn' Hi) as [A [B [C [D E]]]]. repeat split; auto.
+    - destruct H as [H|H]; [contradiction|].
+      apply Hdirty in H as H'. destruct H' as [A [B [C D]]].
+      destruct (sl_le _ _ _ _ L x) as [_ [_ [_ [Q4 _]]]].
+      assert (Hin : oin (objs s1 x) = true) by congruence.
+      destruct (g_in _ _ _ _ _ G1 x Hin) as [_ [X1 [X2 _]]]. repeat split; auto.
+  Qed.
+
+  Lemma restored_final : forall fZ,
+    (forall x, mem x (fnew fZ) = mem x (fnew f) || (mem x other && mem x new)) ->
+    (forall x, mem x (fdirty fZ) = mem x (fdirty f) || (mem x other && negb (mem x new))) ->
+    (forall x, mem x (fdel fZ) = mem x (fdel f) || mem x deleted) ->
+    fks fZ = ks_after (fun o => okey (objs s1 o)) (ikof s1) other (fks f) ->
+    Good FZ' n W1 [] [] /\ J FZ' n /\ Rel g fZ FZ' n [] [] W1 /\ (forall x, oin (FZ' x) = true -> omod (FZ' x) = false).
+  Proof.
+    intros fZ Hfn Hfd Hfl Hfk.
+    assert (Hnd_o : NoDup other) by (unfold other; apply NoDup_filter; apply seq_NoDup).
+    (* the three kinds of objects *)
+    assert (Cdel : forall x, mem x deleted = true -> FZ' x = o_delf (o_in (objs s1 x) false) true /\ oin (objs s1 x) = true /\ x < n).
+    { intros x H. rewrite FZ_unfold, H. split; auto. apply mem_In in H.
+      pose proof (g_del _ _ _ _ _ G1 x H) as X. destruct (g_in _ _ _ _ _ G1 x X) as [Y _]. auto. }
+    assert (Coth : forall x, mem x other = true -> FZ' x = commit_obj (o_in (o_key (objs s1 x) (Some (ikof s1 x))) true) /\ mem x deleted = false).
+    { intros x H. rewrite FZ_unfold. destruct (mem x deleted) eqn:Ed; [rewrite (del_not_other x Ed) in H; discriminate|].
+      rewrite H. auto. }
+    assert (Crest : forall x, mem x deleted = false -> mem x other = false -> FZ' x = objs s1 x).
+    { intros x H1 H2. rewrite FZ_unfold, H1, H2. reflexivity. }
+    (* identity-map members of the result *)
+    assert (Hfoin : forall x, oin (FZ' x) = true -> foin x /\ okey (FZ' x) = rho x /\ oatt (FZ' x) = true /\ odelf (FZ' x) = false).
+    { intros x H. destruct (mem x deleted) eqn:Ed.
+      - destruct (Cdel x Ed) as [E _]. rewrite E in H. discriminate.
+      - destruct (mem x other) eqn:Eo.
+        + destruct (Coth x Eo) as [E _]. rewrite E. assert (Fx : foin x) by (left; auto). split; auto.
+          destruct (other_att x Eo) as [_ [A [B _]]].
+          destruct (foin_rho x Fx) as [p [P1 [_ [_ [P2 _]]]]]. destruct (P2 Eo) as [[P3|P3] _]; [exfalso; apply (Hdid x Eo); exact P3|].
+          cbn. unfold ikof. rewrite P3. repeat split; auto; congruence.
+        + rewrite (Crest x Ed Eo) in *. assert (Fx : foin x) by (right; auto). split; auto.
+          destruct (foin_rho x Fx) as [p [P1 [_ [_ [_ P2]]]]]. destruct (P2 Eo) as [P3 _].
+          destruct (g_in _ _ _ _ _ G1 x H) as [_ [A [B _]]]. repeat split; auto; congruence. }
+    assert (Hatt : forall x, oatt (FZ' x) = oatt (objs s1 x)).
+    { intros x. rewrite FZ_unfold. destruct (mem x deleted); [reflexivity|]. destruct (mem x other); reflexivity. }
+    assert (Hvals : forall x, odid (FZ' x) = odid (objs s1 x) /\ odv (FZ' x) = odv (objs s1 x)).
+    { intros x. rewrite FZ_unfold. destruct (mem x deleted); [split; reflexivity|]. destruct (mem x other); split; reflexivity. }
+    assert (Gd : Good FZ' n W1 [] []).
+    { constructor.
+      - intros x H. destruct (Hfoin x H) as [Fx [K [A D]]].
+        destruct (foin_rho x Fx) as [p [P1 [_ [P3 _]]]]. repeat split; auto. congruence.
+      - intros x y k Hx Hy Kx Ky. destruct (Hfoin x Hx) as [_ [K1 _]]. destruct (Hfoin y Hy) as [_ [K2 _]].
+        eapply (sg_inj _ _ _ _ _ _ _ S); [rewrite <- K1; exact Kx|rewrite <- K2; exact Ky].
+      - intros x k Hn Hk Ha Hd. destruct (mem x deleted) eqn:Ed.
+        + destruct (Cdel x Ed) as [E _]. rewrite E in Hd. discriminate.
+        + destruct (mem x other) eqn:Eo.
+          * destruct (Coth x Eo) as [E _]. rewrite E. reflexivity.
+          * rewrite (Crest x Ed Eo) in *. eapply (g_pers _ _ _ _ _ G1); eauto.
+      - intros x k Hx Hk. destruct (Hfoin x Hx) as [Fx [K _]].
+        destruct (foin_rho x Fx) as [p [P1 [P2 [P3 [P4 P5]]]]].
+        assert (p = k) by congruence. subst p. exists (rv x). split; auto.
+        destruct (mem x other) eqn:Eo.
+        + destruct (Coth x Eo) as [E _]. destruct (P4 eq_refl) as [Q1 Q2]. rewrite E. unfold VA. cbn.
+          repeat split; auto; try congruence; intros; discriminate.
+        + destruct (mem x deleted) eqn:Ed; [destruct (Cdel x Ed) as [E _]; rewrite E in Hx; discriminate|].
+          rewrite (Crest x Ed Eo) in *. destruct (P5 eq_refl) as [Q1 Q2].
+          destruct (g_rows _ _ _ _ _ G1 x k Hx Q1) as [v [Hv Hva]]. assert (v = rv x) by congruence. subst v. exact Hva.
+      - intros x. split; [intros []|]. intros [Hn [Hk Ha]]. exfalso.
+        destruct (mem x deleted) eqn:Ed.
+        + destruct (Cdel x Ed) as [E [X _]]. rewrite E in Hk. cbn in Hk.
+          destruct (g_in _ _ _ _ _ G1 x X) as [_ [_ [_ Y]]]. congruence.
+        + destruct (mem x other) eqn:Eo.
+          * destruct (Coth x Eo) as [E _]. rewrite E in Hk. discriminate.
+          * rewrite (Crest x Ed Eo) in *.
+            assert (In x new) by (apply (g_new _ _ _ _ _ G1); auto).
+            assert (mem x other = true) by (apply other_spec; auto). congruence.
+      - intros x [].
+      - intros x [].
+      - split; constructor.
+      - (* deleted state: the row is gone or re-used by an object of the identity map *)
+        intros x k Hn Hk Ha Hd.
+        assert (Hk1 : okey (objs s1 x) = Some k /\ (mem x deleted = true \/ (oatt (objs s1 x) = true /\ odelf (objs s1 x) = true /\ oin (objs s1 x) = false))).
+        { destruct (mem x deleted) eqn:Ed.
+          - destruct (Cdel x Ed) as [E _]. rewrite E in Hk. cbn in Hk. auto.
+          - destruct (mem x other) eqn:Eo.
+            + destruct (Coth x Eo) as [E _]. destruct (other_att x Eo) as [_ [_ [X _]]]. rewrite E in Hd. cbn in Hd. congruence.
+            + rewrite (Crest x Ed Eo) in *. split; auto. right. repeat split; auto.
+              destruct (oin (objs s1 x)) eqn:E; auto. destruct (g_in _ _ _ _ _ G1 x E) as [_ [_ [Y _]]]. congruence. }
+        destruct Hk1 as [Hk1 Hcase].
+        destruct (W1 k) eqn:Ew; [|left; reflexivity]. right.
+        assert (Hne : work s1 k <> None) by (unfold W1 in Ew; congruence).
+        destruct (sg_cover _ _ _ _ _ _ _ S k Hne) as [[y Hy]|[Hsame Horph]].
+        + (* someone's row *)
+          exists y. destruct (sg_dom _ _ _ _ _ _ _ S y) as [Yn Yc]; [congruence|].
+          assert (Fy : foin y).
+          { destruct (mem y other) eqn:Eo; [left; auto|right].
+            destruct (mem y deleted) eqn:Ed.
+            - apply mem_In in Ed. destruct (HU3 y Ed) as [X _]. congruence.
+            - repeat split; auto. destruct Yc as [Yc|Yc]; auto.
+              assert (mem y other = true) by (apply other_spec; auto). congruence. }
+          assert (Hoy : oin (FZ' y) = true /\ okey (FZ' y) = Some k).
+          { destruct Fy as [Eo|[Eo [Ed Ei]]].
+            - destruct (Coth y Eo) as [E _]. rewrite E. cbn. split; auto.
+              destruct (foin_rho y (or_introl Eo)) as [p [P1 [_ [_ [P2 _]]]]]. destruct (P2 Eo) as [[P3|P3] _]; [exfalso; apply (Hdid y Eo); exact P3|].
+              unfold ikof. rewrite P3. congruence.
+            - rewrite (Crest y Ed Eo). split; auto.
+              destruct (foin_rho y (or_intror (conj Eo (conj Ed Ei)))) as [p [P1 [_ [_ [_ P2]]]]]. destruct (P2 Eo). congruence. }
+          exact Hoy.
+        + (* an orphan row cannot sit under the key of a deleted object *)
+          exfalso. destruct Hcase as [Ed|[A1 [A2 A3]]].
+          * destruct (Cdel x Ed) as [_ [X _]].
+            destruct (sl_le _ _ _ _ L x) as [Q1 [_ [_ [Q4 _]]]]. apply (Horph x); congruence.
+          * destruct (g_dels _ _ _ _ _ G1 x k Hn Hk1 A1 A2) as [X|[x' [X1 X2]]].
+            -- unfold W1 in Ew. rewrite Hsame in Ew. unfold W0 in X. congruence.
+            -- destruct (sl_le _ _ _ _ L x') as [Q1 [_ [_ [Q4 _]]]]. apply (Horph x'); congruence.
+      - intros x Hn Hk Ha Hd. destruct (Hvals x) as [V1 V2]. rewrite V1, V2.
+        destruct (mem x deleted) eqn:Ed.
+        + apply mem_In in Ed. destruct (HU3 x Ed) as [_ [A B]]. auto.
+        + destruct (mem x other) eqn:Eo.
+          * destruct (Coth x Eo) as [E _]. destruct (other_att x Eo) as [_ [_ [X _]]]. rewrite E in Hd. cbn in Hd. congruence.
+          * rewrite (Crest x Ed Eo) in *. apply (g_delv _ _ _ _ _ G1 x Hn); auto. }
+    split; [exact Gd|].
+    assert (Jz : J FZ' n).
+    { intros x Hn. destruct (J1 x Hn) as [A [B C]]. rewrite FZ_unfold.
+      destruct (mem x deleted); [cbn; auto|]. destruct (mem x other); [cbn|auto].
+      repeat split; auto; intros; try congruence. }
+    split; [exact Jz|]. split.
+    2:{ intros x H. destruct (mem x deleted) eqn:Ed; [destruct (Cdel x Ed) as [E _]; rewrite E in H; discriminate|].
+        destruct (mem x other) eqn:Eo.
+        - destruct (Coth x Eo) as [E _]. rewrite E. reflexivity.
+        - rewrite (Crest x Ed Eo) in *.
+          destruct (omod (objs s1 x)) eqn:Em; auto. exfalso.
+          destruct (g_in _ _ _ _ _ G1 x H) as [Hn _].
+          destruct (sl_le _ _ _ _ L x) as [_ [_ [_ [Q4 [Q5 _]]]]].
+          assert (In x dirty).
+          { apply Hdirty. repeat split; try congruence. intros X. apply mem_In in X. congruence. }
+          assert (mem x other = true) by (apply other_spec; auto). congruence. }
+    (* the frame's relation *)
+    assert (Hexp : forall x, expunged fZ [] x = expunged f new x).
+    { intros x. unfold expunged. rewrite Hfn. cbn. rewrite orb_false_r.
+      destruct (mem x new) eqn:En; [|rewrite andb_false_r, orb_false_r; reflexivity].
+      assert (mem x other = true) by (apply other_spec; left; apply mem_In; auto). rewrite H. reflexivity. }
+    assert (Hks : forall x, ks_find x (fks fZ) =
+              if mem x other then
+                match okey (objs s1 x) with
+                | Some k => if Z.eqb k (ikof s1 x) then ks_find x (fks f)
+                            else Some (match ks_find x (fks f) with Some (old, _) => old | None => k end, ikof s1 x)
+                | None => ks_find x (fks f)
+                end
+              else ks_find x (fks f)).
+    { intros x. rewrite Hfk. apply ks_after_find. exact Hnd_o. }
+    assert (Hkey : forall x, okey (FZ' x) = if mem x other then Some (ikof s1 x) else okey (objs s1 x)).
+    { intros x. rewrite FZ_unfold. destruct (mem x deleted) eqn:Ed; [rewrite (del_not_other x Ed); reflexivity|].
+      destruct (mem x other); reflexivity. }
+    assert (Hdelf : forall x, odelf (FZ' x) = if mem x deleted then true else odelf (objs s1 x)).
+    { intros x. rewrite FZ_unfold. destruct (mem x deleted); [reflexivity|]. destruct (mem x other); reflexivity. }
+    assert (Hpkey : forall x, mem x new = false -> pkey fZ FZ' x = pkey f (objs s1) x).
+    { intros x Hn. unfold pkey. rewrite Hks, Hkey. destruct (mem x other) eqn:Eo; auto.
+      destruct (other_att x Eo) as [_ [_ [_ [[X _]|[_ [_ X]]]]]]; [apply mem_In in X; congruence|].
+      destruct (g_in _ _ _ _ _ G1 x X) as [_ [_ [_ Y]]]. destruct (okey (objs s1 x)) as [k|] eqn:Ek; [|congruence].
+      destruct (Z.eqb_spec k (ikof s1 x)).
+      - destruct (ks_find x (fks f)) as [[old nw]|]; congruence.
+      - destruct (ks_find x (fks f)) as [[old nw]|]; reflexivity. }
+    assert (Hpdelf : forall x, pdelf fZ FZ' [] x = pdelf f (objs s1) deleted x).
+    { intros x. unfold pdelf. rewrite Hfl, Hdelf. cbn. rewrite orb_false_r.
+      destruct (mem x (fdel f)); cbn; auto. destruct (mem x deleted); reflexivity. }
+    destruct R1 as [r_n0 r_exp0 r_id0 r_fresh0 r_row0 r_delv0 r_ks0 r_del0 r_lists0 r_ksu0 r_dirty0 r_keep0].
+    assert (Hnew_not : forall x, expunged f new x = false -> mem x new = false).
+    { intros x H. unfold expunged in H. apply orb_false_elim in H. tauto. }
+    constructor.
+    - exact r_n0.
+    - intros x Hx He. rewrite Hexp in He. auto.
+    - intros x Hx He. rewrite Hexp in He. destruct (r_id0 x Hx He) as [A B]. rewrite Hatt. split; auto.
+      intros Ha. destruct (B Ha). rewrite Hpkey, Hpdelf by (apply Hnew_not; auto). auto.
+    - intros x H1 H2. rewrite Hexp. destruct (r_fresh0 x H1 H2) as [A|[A B]]; auto. right.
+      assert (Ed : mem x deleted = false).
+      { destruct (mem x deleted) eqn:Ed; auto. destruct (Cdel x Ed) as [_ [X _]]. congruence. }
+      assert (Eo : mem x other = false).
+      { destruct (mem x other) eqn:Eo; auto. destruct (other_att x Eo) as [_ [X _]]. congruence. }
+      rewrite (Crest x Ed Eo). auto.
+    - (* rows the frame did not write *)
+      intros x k Hx He Hi Hd Hdl Hk. rewrite Hexp in He. rewrite Hfd in Hd. rewrite Hfl in Hdl.
+      apply orb_false_elim in Hd. destruct Hd as [Hd1 Hd2]. apply orb_false_elim in Hdl. destruct Hdl as [Hl1 Hl2].
+      pose proof (Hnew_not x He) as Hnn.
+      assert (Eo : mem x other = false). { rewrite Hnn in Hd2. cbn in Hd2. rewrite andb_true_r in Hd2. exact Hd2. }
+      rewrite <- (r_row0 x k Hx He Hi Hd1 Hl1 Hk).
+      (* x is untouched and still in the identity map under k *)
+      destruct (r_id0 x Hx He) as [A B]. destruct (g_in _ _ _ _ _ GG x Hi) as [_ [Xa [Xd _]]].
+      destruct (B Xa) as [B1 B2].
+      assert (Hks0 : ks_find x (fks f) = None).
+      { destruct (ks_find x (fks f)) as [[old nw]|] eqn:Ek; auto.
+        destruct (r_ks0 x old nw Ek) as [_ [_ [_ [Y|Y]]]]; [|congruence].
+        unfold expunged in He. rewrite Y in He. discriminate. }
+      unfold pkey in B1. rewrite Hks0 in B1. unfold pdelf in B2. rewrite Hl1, Hl2 in B2. cbn in B2.
+      assert (Hin : oin (objs s1 x) = true).
+      { apply (g_pers _ _ _ _ _ G1 x k); try congruence. pose proof r_n0. lia. }
+      assert (Fx : foin x) by (right; auto).
+      destruct (foin_rho x Fx) as [p [P1 [P2 [_ [_ P3]]]]]. destruct (P3 Eo) as [P4 P5].
+      assert (p = k) by congruence. subst p. unfold W1, W0 in *. congruence.
+    - (* values of objects deleted in the frame *)
+      intros x k v Hx He Hdl Hd Hm Hk Hw. rewrite Hexp in He. rewrite Hfd in Hd. rewrite Hfl in Hdl.
+      apply orb_false_elim in Hd. destruct Hd as [Hd1 Hd2].
+      destruct (Hvals x) as [V1 V2]. rewrite V1, V2.
+      pose proof (Hnew_not x He) as Hnn.
+      assert (Eo : mem x other = false). { rewrite Hnn in Hd2. cbn in Hd2. rewrite andb_true_r in Hd2. exact Hd2. }
+      destruct (mem x (fdel f)) eqn:El.
+      + assert (Ed : mem x deleted = false).
+        { destruct (mem x deleted) eqn:Ed; auto. destruct (Cdel x Ed) as [_ [X _]].
+          destruct (r_del0 x El) as [_ [Y _]]. congruence. }
+        rewrite (Crest x Ed Eo) in Hm. eapply r_delv0; eauto.
+      + cbn in Hdl. destruct (Cdel x Hdl) as [E [Hin Hn]]. rewrite E in Hm. cbn in Hm.
+        destruct (r_id0 x Hx He) as [A B].
+        destruct (g_in _ _ _ _ _ G1 x Hin) as [_ [Xa [Xd Xk]]].
+        assert (Xa' : oatt (gobjs g x) = true) by congruence. destruct (B Xa') as [B1 B2].
+        assert (Hks0 : ks_find x (fks f) = None).
+        { destruct (ks_find x (fks f)) as [[old nw]|] eqn:Ek; auto.
+          destruct (r_ks0 x old nw Ek) as [_ [_ [_ [Y|Y]]]]; [|congruence].
+          unfold expunged in He. rewrite Y in He. discriminate. }
+        unfold pkey in B1. rewrite Hks0 in B1.
+        assert (Hk1 : okey (objs s1 x) = Some k) by congruence.
+        destruct (g_rows _ _ _ _ _ G1 x k Hin Hk1) as [v0 [Hv0 [U1 [_ [U3 _]]]]].
+        destruct (J1 x Hn) as [_ [_ J3]]. destruct (J3 Hm) as [C1 C2].
+        assert (Hio : oin (gobjs g x) = true).
+        { unfold pdelf in B2. rewrite El, Hdl in B2. cbn in B2. apply (g_pers _ _ _ _ _ GG x k); auto. }
+        rewrite (r_row0 x k Hx He Hio Hd1 El Hk) in Hv0. assert (v0 = v) by congruence. subst v0. auto.
+    - (* key switches *)
+      intros x old nw Hk. rewrite Hks in Hk. destruct (mem x other) eqn:Eo.
+      + destruct (other_att x Eo) as [Hn [Ha [Hd Hc]]].
+        assert (Hfl' : mem x (fnew fZ) = true \/ mem x (fdirty fZ) = true).
+        { rewrite Hfn, Hfd, Eo. cbn. destruct (mem x new); [left|right]; apply orb_true_r. }
+        destruct (okey (objs s1 x)) as [k|] eqn:Ek.
+        * destruct (Z.eqb_spec k (ikof s1 x)).
+          -- destruct (r_ks0 x old nw Hk) as [A [B [C D]]]. rewrite Hkey, Eo, Hatt. repeat split; auto. congruence.
+          -- inversion Hk; subst. rewrite Hkey, Eo, Hatt. repeat split; auto.
+        * destruct (r_ks0 x old nw Hk) as [A [B [C D]]]. congruence.
+      + destruct (r_ks0 x old nw Hk) as [A [B [C D]]]. rewrite Hkey, Eo, Hatt. repeat split; auto.
+        rewrite Hfn, Hfd. destruct D as [D|D]; rewrite D; auto.
+    - (* deleted in the frame *)
+      intros x Hdl. rewrite Hfl in Hdl. destruct (mem x (fdel f)) eqn:El.
+      + destruct (r_del0 x El) as [A [B [C [D F]]]].
+        assert (Ed : mem x deleted = false).
+        { destruct (mem x deleted) eqn:Ed; auto. destruct (Cdel x Ed) as [_ [X _]]. congruence. }
+        assert (Eo : mem x other = false).
+        { destruct (mem x other) eqn:Eo; auto. destruct (other_att x Eo) as [_ [_ [X _]]]. congruence. }
+        rewrite (Crest x Ed Eo). auto.
+      + cbn in Hdl. destruct (Cdel x Hdl) as [E [Hin Hn]]. rewrite E. cbn.
+        destruct (g_in _ _ _ _ _ G1 x Hin) as [_ [Xa [_ Xk]]]. auto.
+    - intros x [H|H]; [rewrite Hfn in H|rewrite Hfd in H]; apply orb_prop in H; destruct H as [H|H].
+      + apply r_lists0; auto.
+      + apply andb_prop in H. destruct H as [H _]. destruct (other_att x H); auto.
+      + apply r_lists0; auto.
+      + apply andb_prop in H. destruct H as [H _]. destruct (other_att x H); auto.
+    - rewrite Hfk. apply ks_after_nodup. exact r_ksu0.
+    - (* flushed as dirty *)
+      intros x H. rewrite Hfd in H. rewrite Hfn. apply orb_prop in H. destruct H as [H|H].
+      + destruct (r_dirty0 x H) as [X|X]; [left; rewrite X; reflexivity|right; exact X].
+      + apply andb_prop in H. destruct H as [Eo Hnn]. apply negb_true_iff in Hnn.
+        destruct (other_att x Eo) as [Hn [Ha [Hd [[X _]|[Xd [_ Hin]]]]]]; [apply mem_In in X; congruence|].
+        destruct (mem x (fnew f)) eqn:Ef; [left; reflexivity|right].
+        assert (He : expunged f new x = false) by (unfold expunged; rewrite Ef, Hnn; reflexivity).
+        assert (Hx : x < gn g).
+        { destruct (Nat.lt_ge_cases x (gn g)); auto.
+          destruct (r_fresh0 x H Hn) as [Y|[Y _]]; congruence. }
+        split; auto. destruct (r_id0 x Hx He) as [A B].
+        assert (Xa : oatt (gobjs g x) = true) by congruence. destruct (B Xa) as [B1 B2].
+        destruct (g_in _ _ _ _ _ G1 x Hin) as [_ [_ [Yd Yk]]].
+        assert (Hdl : mem x (fdel f) = false).
+        { destruct (mem x (fdel f)) eqn:El; auto. destruct (r_del0 x El) as [_ [Z _]]. congruence. }
+        assert (Hdd : mem x deleted = false).
+        { destruct (mem x deleted) eqn:Ed; auto. rewrite (del_not_other x Ed) in Eo. discriminate. }
+        unfold pdelf in B2. rewrite Hdl, Hdd in B2. cbn in B2.
+        assert (Hpk : pkey f (objs s1) x <> None).
+        { unfold pkey. destruct (ks_find x (fks f)) as [[old nw]|]; [discriminate|exact Yk]. }
+        destruct (okey (gobjs g x)) as [k|] eqn:Ek; [|congruence].
+        apply (g_pers _ _ _ _ _ GG x k); auto. congruence.
+    - (* objects in the deleted state since before the frame *)
+      intros x Hx Ha Hi Hm.
+      assert (Hin : oin (objs s1 x) = false).
+      { eapply (Rel_notin g f (objs s1) n new deleted W0); eauto; try (constructor; auto). }
+      assert (Ed : mem x deleted = false).
+      { destruct (mem x deleted) eqn:Ed; auto. destruct (Cdel x Ed) as [_ [X _]]. congruence. }
+      assert (Eo : mem x other = false).
+      { destruct (mem x other) eqn:Eo; auto.
+        destruct (other_att x Eo) as [_ [_ [_ [[X [Y _]]|[_ [_ X]]]]]]; [|congruence].
+        (* pending now, attached but not in the map then: it had a key then *)
+        exfalso. assert (He : expunged f new x = true) by (unfold expunged; apply mem_In in X; rewrite X; apply orb_true_r).
+        pose proof (r_exp0 x Hx He). congruence. }
+      rewrite (Crest x Ed Eo) in *. apply r_keep0; auto.
+  Qed.
+End FlushSem.
+
+(* the invariants are extensional in the object function *)
+Lemma Good_obj_ext : forall a b n W sn sd, (forall x, a x = b x) -> Good a n W sn sd -> Good b n W sn sd.
+Proof.
+  intros a b n W sn sd H G. destruct G as [g1 g2 g3 g4 g5 g5' g6 g6' g7 g8]. constructor.
+  - intros o. rewrite <- H. apply g1.
+  - intros o1 o2 k. rewrite <- !H. apply g2.
+  - intros o k. rewrite <- H. apply g3.
+  - intros o k. rewrite <- H. apply g4.
+  - intros o. rewrite <- H. apply g5.
+  - intros o. rewrite <- H. apply g5'.
+  - intros o. rewrite <- H. apply g6.
+  - exact g6'.
+  - intros o k A B C D. rewrite <- H in *. destruct (g7 o k A B C D) as [X|[o' [X Y]]]; auto.
+    right. exists o'. rewrite <- H. auto.
+  - intros o. rewrite <- H. apply g8.
+Qed.
+Lemma J_obj_ext : forall a b n, (forall x, a x = b x) -> J a n -> J b n.
+Proof. intros a b n H Ja x Hx. rewrite <- H. apply Ja; auto. Qed.
+Lemma Rel_obj_ext : forall g f a b n sn sd W, (forall x, a x = b x) -> Rel g f a n sn sd W -> Rel g f b n sn sd W.
+Proof.
+  intros g f a b n sn sd W H R. destruct R as [r1 r2 r3 r4 r5 r6 r7 r8 r9 r9' r10 r11]. constructor; auto.
+  - intros o A B. specialize (r3 o A B). unfold pkey, pdelf in *. rewrite <- H. exact r3.
+  - intros o A B. rewrite <- H. apply r4; auto.
+  - intros o k v. rewrite <- H. apply r6.
+  - intros o old nw. rewrite <- H. apply r7.
+  - intros o. rewrite <- H. apply r8.
+  - intros o. rewrite <- H. apply r11.
+Qed.
+
+(* ------------------------------------------------------------------ the flush after the connection is there *)
+Definition flush_body (new dirty deleted : list nat) : M :=
+  foldM (organize_pending deleted) new ;;
+  withst (fun st0 => foldM do_stmt (stmts_of st0 new dirty deleted)) ;;
+  finalize new dirty deleted.
+
+Lemma flush_exec_unfold : forall new dirty deleted, flush_exec new dirty deleted = (provision ;; flush_body new dirty deleted).
+Proof. reflexivity. Qed.
+
+Lemma mem_fold_addm : forall l d x, mem x (fold_left (fun d o => addm o d) l d) = mem x d || mem x l.
+Proof.
+  induction l as [|a l IH]; intros d x; cbn [fold_left].
+  - cbn. rewrite orb_false_r. reflexivity.
+  - rewrite IH, mem_addm. cbn [mem existsb]. fold (mem x l). destruct (Nat.eqb x a), (mem x d), (mem x l); reflexivity.
+Qed.
+
+Section FlushBody.
+  Variables (s0 : sess) (g : ghost) (f : frame) (rest : list frame) (dirty : list nat).
+  Hypothesis GC : GClean g.
+  Let n := nobj s0.
+  Let W0 := work s0.
+  Let new := snew s0.
+  Let deleted := sdel s0.
+  Hypothesis Hst0 : stack s0 = f :: rest.
+  Hypothesis G0 : Good (objs s0) n W0 new deleted.
+  Hypothesis J0 : J (objs s0) n.
+  Hypothesis R0 : Rel g f (objs s0) n new deleted W0.
+  Hypothesis Hdirty : forall x, In x dirty <-> (x < n /\ oin (objs s0 x) = true /\ omod (objs s0 x) = true /\ ~ In x deleted).
+  Hypothesis Hdnd : NoDup dirty.
+
+  Theorem flush_body_spec : forall r sZ, flush_body new dirty deleted s0 = (r, sZ) -> r <> Unmodelled ->
+    (r = Ok -> exists fZ, stack sZ = fZ :: rest /\
+        fid fZ = fid f /\ fnested fZ = fnested f /\ fstate fZ = fstate f /\ frbexc fZ = frbexc f /\ fconn fZ = fconn f /\
+        Good (objs sZ) n (work sZ) [] [] /\ J (objs sZ) n /\ Rel g fZ (objs sZ) n [] [] (work sZ) /\
+        (forall x, oin (objs sZ x) = true -> omod (objs sZ x) = false) /\
+        snew sZ = [] /\ sdel sZ = [] /\ nobj sZ = n /\ committed sZ = committed s0 /\ saves sZ = saves s0 /\
+        nfid sZ = nfid s0 /\ eoc sZ = eoc s0 /\ handles sZ = handles s0) /\
+    (r <> Ok -> SigL s0 g f sZ).
+  Proof.
+    intros r sZ H Hr. unfold flush_body in H.
+    pose proof (sigl0 s0 g f G0 J0 R0) as L0.
+    apply bind_inv in H. destruct H as [[sa [Ha H]]|[Ha Hn]].
+    2:{ destruct (organize_ok s0 g f GC new s0 r sZ L0 eq_refl Ha Hr) as [X _]. congruence. }
+    destruct (organize_ok s0 g f GC new s0 Ok sa L0 eq_refl Ha) as [_ [La Hwa]]; [discriminate|].
+    apply bind_inv in H. rewrite withst_eq in H.
+    pose proof (sig_init s0 g f dirty G0 Hdirty sa La Hwa) as Sa.
+    assert (Wf : WfL (stmts_of sa new dirty deleted)).
+    { apply stmts_of_wf; auto; try apply (g_nodup _ _ _ _ _ G0). intros x Hx. apply Hdirty in Hx. tauto. }
+    destruct H as [[s1 [H1 H]]|[H1 Hn]].
+    2:{ destruct (stmts_fold s0 g f GC _ _ _ _ _ _ Sa Wf H1 Hr) as [_ X]. split; [congruence|auto]. }
+    destruct (stmts_fold s0 g f GC _ _ _ _ _ _ Sa Wf H1) as [X _]; [discriminate|].
+    destruct (X eq_refl) as [rho [rv [S1 [U1 [U2 U3]]]]]. clear X.
+    pose proof (sg_l _ _ _ _ _ _ _ S1) as L1.
+    destruct (sl_rest _ _ _ _ L1) as [T1 [T2 [T3 [T4 [T5 [T6 [T7 [T8 T9]]]]]]]].
+    (* the facts finalize needs *)
+    assert (HU1 : forall x, ~ In x dirty -> ~ In x new -> ~ In x deleted ->
+              rho x = (if oin (objs s1 x) then okey (objs s1 x) else None) /\
+              (forall k v, okey (objs s1 x) = Some k -> W0 k = Some v -> rv x = v)).
+    { intros x N1 N2 N3.
+      destruct (U1 x) as [A [B C]].
+      { intros a Ha' E. destruct (stmts_of_in sa new dirty deleted x) as [S1' [S2' S3']].
+        destruct a as [o|o|o]; cbn in E; subst o; [apply N1, S1'|apply N2, S2'|apply N3, S3']; exact Ha'. }
+      rewrite A, B, C. unfold rho0, rv0. split; auto.
+      intros k v Hk Hv. rewrite Hk. unfold W0 in Hv. rewrite Hv. reflexivity. }
+    assert (HU2 : forall x, In x dirty \/ In x new -> rho x <> None).
+    { intros x Hx. apply U2. destruct (stmts_of_in sa new dirty deleted x) as [S1' [S2' _]].
+      destruct Hx as [Hx|Hx]; [left; apply S1'|right; apply S2']; exact Hx. }
+    assert (HU3 : forall x, In x deleted -> rho x = None /\ odid (objs s1 x) <> None /\ odv (objs s1 x) <> None).
+    { intros x Hx. apply U3. destruct (stmts_of_in sa new dirty deleted x) as [_ [_ S3']]. apply S3'. exact Hx. }
+    assert (Hst1 : stack s1 = f :: rest) by congruence.
+    assert (Hn1 : nobj s1 = n) by exact T2.
+    (* run finalize *)
+    pose proof (finalize_compute s1 f rest new dirty deleted Hst1 T3 T4) as FC.
+    assert (Hnd_del : NoDup deleted) by apply (g_nodup _ _ _ _ _ G0).
+    assert (Hdisj : forall x, mem x deleted = true -> mem x (filter (fun o => mem o new || mem o dirty) (seq 0 (nobj s1))) = false).
+    { intros x Hx. rewrite Hn1. apply (del_not_other s0 g f s1 rho rv dirty Hdirty S1). exact Hx. }
+    assert (Hnew_lt : forall x, In x new -> x < nobj s1).
+    { intros x Hx. rewrite Hn1. apply (g_new _ _ _ _ _ G0) in Hx. tauto. }
+    specialize (FC Hnd_del Hdisj Hnew_lt).
+    (* registration succeeded, so the objects had key values; get it from the run itself *)
+    destruct (finalize new dirty deleted s1) as [rf sf] eqn:Ef.
+    assert (rf = r /\ sf = sZ) by (split; congruence). destruct H0; subst rf sf.
+    (* injectivity needs the key values, which we only know once registration succeeded: split on r *)
+    assert (Hdid : forall o, mem o (filter (fun o => mem o new || mem o dirty) (seq 0 n)) = true -> odid (objs s1 o) <> None).
+    { intros o Ho Hd.
+      (* otherwise finalize is outside the model *)
+      unfold finalize in Ef. rewrite (bind_ok _ _ _ (fold_left (fun s o => remove_newly_deleted o s) deleted s1)) in Ef by reflexivity.
+      rewrite withst_eq in Ef.
+      destruct (negb (nodupZ _)) in Ef; [inversion Ef; subst; congruence|].
+      apply bind_inv in Ef.
+      assert (Hall : all_objs (fold_left (fun s o => remove_newly_deleted o s) deleted s1) = seq 0 n).
+      { unfold all_objs. destruct (stack s1) as [|f1 r1] eqn:Es; [congruence|].
+        destruct (rnd_fold deleted s1 f1 r1 Es Hnd_del) as [_ [_ [_ [_ [A _]]]]]. rewrite A, Hn1. reflexivity. }
+      rewrite Hall in Ef.
+      assert (Hobj : objs (fold_left (fun s o => remove_newly_deleted o s) deleted s1) o = objs s1 o).
+      { destruct (stack s1) as [|f1 r1] eqn:Es; [congruence|].
+        destruct (rnd_fold deleted s1 f1 r1 Es Hnd_del) as [A _]. rewrite A.
+        destruct (mem o deleted) eqn:Ed; auto. rewrite Hn1 in Hdisj. rewrite (Hdisj o Ed) in Ho. discriminate. }
+      destruct Ef as [[s3 [E3 _]]|[E3 E4]].
+      - apply mem_In in Ho. pose proof (register_fold_dids _ _ _ E3 o Ho) as X. rewrite Hobj in X. contradiction.
+      - (* the registration loop never raises *)
+        clear - E3 E4 Hr.
+        revert E3. generalize (fold_left (fun s o => remove_newly_deleted o s) deleted s1).
+        generalize (filter (fun o => mem o new || mem o dirty) (seq 0 n)). intros l.
+        induction l as [|a l IH]; intros s E3.
+        + inversion E3; subst; congruence.
+        + cbn [foldM] in E3. apply bind_inv in E3. destruct E3 as [[sa' [Ha' Hb]]|[Ha' _]].
+          * eapply IH; eauto.
+          * unfold register_one in Ha'. destruct (odid (objs s a)); [|inversion Ha'; subst; congruence].
+            destruct (okey (objs s a)); [destruct (Z.eqb _ _)|]; inversion Ha'; subst; congruence. }
+    assert (Hinj := P2R_inj s0 g f s1 rho rv dirty Hdirty S1 HU1 HU2 Hdid).
+    destruct (FC Hinj r sZ eq_refl Hr) as [Er [OZ [[fn [fd [SZ [Fn Fd]]]] [A1 [A2 [A3 [A4 [A5 [A6 [A7 [A8 A9]]]]]]]]]]].
+    subst r. split; [|congruence]. intros _.
+    eexists. split; [exact SZ|]. cbn [fid fnested fstate frbexc fconn f_dirty f_new f_ks f_del].
+    split; [reflexivity|]. split; [reflexivity|]. split; [reflexivity|]. split; [reflexivity|]. split; [reflexivity|].
+    destruct (restored_final s0 g f s1 rho rv dirty GC Hdirty S1 HU1 HU2 HU3 Hdid
+                (f_dirty (f_new (f_ks (f_del f (fold_left (fun d o => addm o d) deleted (fdel f)))
+                                   (ks_after (fun o => okey (objs s1 o)) (ikof s1) (filter (fun o => mem o new || mem o dirty) (seq 0 (nobj s1))) (fks f))) fn) fd))
+      as [Gz [Jz [Rz Cz]]].
+    { intros x. cbn -[mem]. rewrite Fn, Hn1. reflexivity. }
+    { intros x. cbn -[mem]. rewrite Fd, Hn1. reflexivity. }
+    { intros x. cbn -[mem]. apply mem_fold_addm. }
+    { cbn. rewrite Hn1. reflexivity. }
+    assert (Ext : forall x, FZ s1 new dirty deleted x = objs sZ x) by (intros; symmetry; apply OZ).
+    rewrite A4.
+    split; [eapply Good_obj_ext; eauto|]. split; [eapply J_obj_ext; eauto|]. split; [eapply Rel_obj_ext; eauto|].
+    split; [intros x Hx; rewrite <- Ext in *; apply Cz; auto|].
+    repeat split; auto; congruence.
+  Qed.
+End FlushBody.
